@@ -4,7 +4,7 @@ import Sml.Lemmas.C07
 /-
   Helper lemmas about the push decoder that are shared by C02 (soundness) and C17 (tiling):
 
-  * `Dec.dd`      : the logical payload so far (buffer contents followed by the withheld zeros),
+  * `Dec.ddS`      : the logical payload so far (buffer contents followed by the withheld zeros),
   * `Dec.Pushed`  : "`d'` is `d` with `l` appended to the logical payload, nothing else changed",
   * `PushOk`      : the data-push helpers (`pushData`, `pushRep`, `pushList`, `flush`) either
                     append to the logical payload or report out-of-memory; they never panic,
@@ -15,11 +15,11 @@ namespace Sml
 namespace Dec
 
 /-- the logical payload decoded so far: buffer contents, then the zeros held back in `zero_cache` -/
-def dd (d : Dec) : List UInt8 := d.buf.data ++ List.replicate d.zc 0
+def ddS (d : Dec) : List UInt8 := d.buf.data ++ List.replicate d.zc 0
 
 /-- `d'` is `d` with `l` appended to the logical payload; counters, digest and state unchanged -/
 def Pushed (d d' : Dec) (l : List UInt8) : Prop :=
-  d'.raw = d.raw ∧ d'.crc = d.crc ∧ d'.st = d.st ∧ d'.dd = d.dd ++ l
+  d'.raw = d.raw ∧ d'.crc = d.crc ∧ d'.st = d.st ∧ d'.ddS = d.ddS ++ l
 
 theorem Pushed.rfl' (d : Dec) : Pushed d d [] := ⟨rfl, rfl, rfl, by simp⟩
 
@@ -78,7 +78,7 @@ theorem flush_some {d d' : Dec} (h : d.flush = some d') :
 
 theorem flush_pushed {d d' : Dec} (h : d.flush = some d') : Pushed d d' [] ∧ d'.zc = 0 := by
   obtain ⟨a1, a2, a3, a4, a5⟩ := flush_some h
-  exact ⟨⟨a1, a2, a3, by simp [dd, a4, a5]⟩, a4⟩
+  exact ⟨⟨a1, a2, a3, by simp [ddS, a4, a5]⟩, a4⟩
 
 end Dec
 
@@ -105,12 +105,12 @@ theorem pushData_ok (d : Dec) (x : UInt8) : PushOk (d.pushData x) d [x] := by
     · next hz =>
       rw [if_neg (by omega)]
       refine ⟨rfl, rfl, rfl, ?_⟩
-      simp [dd, List.replicate_succ']
+      simp [ddS, List.replicate_succ']
     · split
       · next d' h =>
         obtain ⟨a1, a2, a3, a4, a5⟩ := pushInner_some h
         refine ⟨a1, a2, a3, ?_⟩
-        simp only [dd, a4, a5, List.append_assoc, List.singleton_append]
+        simp only [ddS, a4, a5, List.append_assoc, List.singleton_append]
         rw [replicate_zero_comm]
       · trivial
   · split
@@ -122,7 +122,7 @@ theorem pushData_ok (d : Dec) (x : UInt8) : PushOk (d.pushData x) d [x] := by
         obtain ⟨a1, a2, a3, a4, a5⟩ := pushInner_some h2
         have : Pushed d1 d2 [x] := by
           refine ⟨a1, a2, a3, ?_⟩
-          simp [dd, a4, a5, hz]
+          simp [ddS, a4, a5, hz]
         have h3 := p1.trans this
         simpa [PushOk] using h3
       · trivial
